@@ -210,6 +210,11 @@ func (prop) Gen(r *core.Rand, tier string) []core.Case {
 			if r.Chance(20) {
 				c.Ops = append(c.Ops, "allow "+strconv.Itoa(r.Intn(2)))
 			}
+			if r.Chance(30) { // the requester's record is replaced between requests (a new handshake): private <-> public
+				all := [][]string{pubU, privU, privU, otherU}
+				cl := all[r.Intn(len(all))]
+				c.Ops = append(c.Ops, "book "+core.Hex(rq)+" "+cl[r.Intn(len(cl))])
+			}
 			c.Ops = append(c.Ops, fmt.Sprintf("find %s %d %s %s", core.Hex(rq), lim, core.Hex(tg), posList(r, pos)))
 		}
 		c.NT = true
